@@ -185,7 +185,8 @@ fn sampled(rng: &mut Rng) -> Scenario {
                 sc.low_dense = false;
                 let k = pick_k(rng);
                 if !used.contains(&k) {
-                    sc.actions.push((k, Action::XOut(sc.x0 + (sc.xend - sc.x0) * rng.f())));
+                    let xo = if rng.bool(0.35) { sc.xend } else { sc.x0 + (sc.xend - sc.x0) * rng.f() };
+                    sc.actions.push((k, Action::XOut(xo)));
                 }
             }
         }
